@@ -1,4 +1,5 @@
 import PnVerif.Lemmas.MergeLemmas
+import PnVerif.Lemmas.ReqQueueInv
 /-
   C02 — nonblocking request aggregation is equivalent to blocking execution.
 
@@ -95,8 +96,450 @@ example : Pos [⟨0, 4, 0⟩, ⟨4, 4, 100⟩] ∧ Disj [⟨0, 4, 0⟩, ⟨4, 4,
   · intro s hs; simp at hs; rcases hs with rfl | rfl <;> decide
   · simp [Disj]
 
+/-! ## Part 2: the pending-request queues (Model/ReqQueue.lean)
+
+  `Inv nc` (Lemmas/ReqQueueInv.lean) says, for the put queue (parity 0) and the get queue (parity 1):
+  the lead list and the non-lead list are the canonical form of the list of pending requests
+  `q.view` (lead i has nonleadOff = Σ_{k<i} nonleadNum k; the non-lead list is the concatenation of
+  the slices, slice i carrying leadOff = i), the two C counters equal the list lengths, no
+  NC_REQ_TO_FREE flag is set, ids are pairwise distinct, non-negative, of the right parity and
+  ≤ max…ReqID, every request has at least one non-lead request. -/
+open PnVerif.ReqQueue
+
+/-- what `Inv` means in terms of the raw C-like fields -/
+theorem queue_inv_meaning (nc : NC) (h : Inv nc) :
+    (nc.put.lead = canonLeads 0 nc.put.view ∧ nc.put.nonlead = canonNL 0 nc.put.view ∧
+     nc.put.numLead = nc.put.lead.length ∧ nc.put.numReqs = nc.put.nonlead.length ∧
+     List.Pairwise (fun a b => a.c.id ≠ b.c.id) nc.put.view ∧
+     ∀ e ∈ nc.put.view, e.c.id % 2 = 0 ∧ 0 ≤ e.c.id ∧ e.c.id ≤ nc.put.maxId ∧ e.c.toFree = false ∧ e.subs ≠ []) ∧
+    (nc.get.lead = canonLeads 0 nc.get.view ∧ nc.get.nonlead = canonNL 0 nc.get.view ∧
+     nc.get.numLead = nc.get.lead.length ∧ nc.get.numReqs = nc.get.nonlead.length ∧
+     List.Pairwise (fun a b => a.c.id ≠ b.c.id) nc.get.view ∧
+     ∀ e ∈ nc.get.view, e.c.id % 2 = 1 ∧ 0 ≤ e.c.id ∧ e.c.id ≤ nc.get.maxId ∧ e.c.toFree = false ∧ e.subs ≠ []) := by
+  obtain ⟨vP, vG, hP, hG⟩ := h
+  have eP := rep_view _ _ hP.rep
+  have eG := rep_view _ _ hG.rep
+  rw [eP, eG]
+  refine ⟨⟨hP.rep.lead, hP.rep.nonlead, ?_, ?_, hP.distinct, ?_⟩, ⟨hG.rep.lead, hG.rep.nonlead, ?_, ?_, hG.distinct, ?_⟩⟩
+  · rw [hP.rep.numLead, hP.rep.lead]; simp
+  · rw [hP.rep.numReqs, hP.rep.nonlead]; simp
+  · intro e he; have := hP.ids e he; exact ⟨this.1, this.2.1, this.2.2, hP.clean e he, hP.noEmpty e he⟩
+  · rw [hG.rep.numLead, hG.rep.lead]; simp
+  · rw [hG.rep.numReqs, hG.rep.nonlead]; simp
+  · intro e he; have := hG.ids e he; exact ⟨this.1, this.2.1, this.2.2, hG.clean e he, hG.noEmpty e he⟩
+
+/-- operations of the nonblocking API on one process -/
+inductive Op
+  | post (isPut sorted : Bool) (varBegin reqOff abuf : Int) (tag : Nat) (subs : List Sub) (maxRec : Int)
+  | wait (num : Int) (ids : List Int) (st : Option (List Int))
+  | cancel (num : Int) (ids : List Int) (st : Option (List Int))
+
+def step (nc : NC) : Op → NC
+  | .post true s vb ro ab tag subs mr => { nc with put := (nc.put.post 0 s vb ro ab tag subs mr).1 }
+  | .post false s vb ro ab tag subs mr => { nc with get := (nc.get.post 1 s vb ro ab tag subs mr).1 }
+  | .wait num ids st => (ReqQueue.wait nc num ids st).nc
+  | .cancel num ids st => (ReqQueue.cancel nc num ids st).nc
+
+/-- a posted request has at least one non-lead request (zero-length requests return NC_REQ_NULL
+    before anything is queued; a record request has count[0] ≥ 1 records) -/
+def wellFormed : Op → Prop
+  | .post _ _ _ _ _ _ subs _ => subs ≠ []
+  | _ => True
+
+/-- the operation is not a wait that extract_reqs refuses with NC_EINVAL_REQUEST -/
+def notRefused (nc : NC) : Op → Prop
+  | .wait num ids st => (ReqQueue.wait nc num ids st).err = NC_NOERR
+  | _ => True
+
+def run : NC → List Op → NC
+  | nc, [] => nc
+  | nc, op :: ops => run (step nc op) ops
+
+def Admissible : NC → List Op → Prop
+  | _, [] => True
+  | nc, op :: ops => wellFormed op ∧ notRefused nc op ∧ Admissible (step nc op) ops
+
+theorem inv_init : Inv {} :=
+  ⟨[], [], QInv.empty _ _ ⟨rfl, rfl, rfl, rfl⟩, QInv.empty _ _ ⟨rfl, rfl, rfl, rfl⟩⟩
+
+theorem step_inv (nc : NC) (h : Inv nc) (op : Op) (hw : wellFormed op) (hr : notRefused nc op) : Inv (step nc op) := by
+  cases op with
+  | post isPut s vb ro ab tag subs mr =>
+    obtain ⟨vP, vG, hP, hG⟩ := h
+    cases isPut with
+    | true => exact ⟨_, vG, post_inv nc.put 0 vP hP 0 (by decide) s vb ro ab tag subs mr hw, hG⟩
+    | false => exact ⟨vP, _, hP, post_inv nc.get 1 vG hG 1 (by decide) s vb ro ab tag subs mr hw⟩
+  | wait num ids st => exact wait_inv nc h num ids st hr
+  | cancel num ids st => exact cancel_inv nc h num ids st
+
+/-- `queue_inv` (partial): the invariant holds after EVERY history of posts, waits (all forms:
+    explicit lists, NC_REQ_ALL / NC_GET_REQ_ALL / NC_PUT_REQ_ALL, the three shortcuts) and cancels
+    of any length in which no wait is refused with NC_EINVAL_REQUEST. -/
+theorem queue_inv_partial (ops : List Op) : ∀ (nc : NC), Inv nc → Admissible nc ops → Inv (run nc ops) := by
+  induction ops with
+  | nil => intro nc h _; exact h
+  | cons op ops ih =>
+    intro nc h ha
+    exact ih (step nc op) (step_inv nc h op ha.1 ha.2.1) ha.2.2
+
+/-- the full statement: without the "no refused wait" hypothesis -/
+def queue_inv_Statement : Prop := ∀ ops : List Op, (∀ op ∈ ops, wellFormed op) → Inv (run {} ops)
+
+private def sub1 : Sub := { tag := 0, nelems := 1, xoff := 0 }
+/-- put A (id 0), put B (id 2), get G (id 1); wait_all(2,[A,998]) is refused but leaves
+    NC_REQ_TO_FREE on A; wait_all(1,[B]) then frees A as well and leaves numPutReqs = 1 with an
+    empty queue (F19) -/
+def f19History : List Op :=
+  [.post true true 100 100 (-1) 0 [sub1] (-1), .post true true 200 200 (-1) 1 [sub1] (-1),
+   .post false false 100 100 (-1) 2 [sub1] (-1),
+   .wait 2 [0, 998] (some [777, 777]), .wait 1 [2] (some [777])]
+
+theorem queue_inv_counterexample : ¬ queue_inv_Statement := by
+  intro h
+  have hi := h f19History (by intro op hop; simp [f19History] at hop; rcases hop with rfl | rfl | rfl | rfl | rfl <;> simp [wellFormed, sub1])
+  have hm := (queue_inv_meaning _ hi).1
+  have h1 : (run {} f19History).put.numReqs = 1 := by decide
+  have h2 : (run {} f19History).put.nonlead = [] := by decide
+  have := hm.2.2.2.1
+  rw [h1, h2] at this
+  simp at this
+
+/-- non-vacuity of `queue_inv_partial`: a history with a sorted insertion in the middle, a subset
+    wait, a shortcut wait and a cancel is admissible -/
+example : Admissible {} [.post true true 300 300 (-1) 0 [sub1, sub1] (-1), .post true true 100 100 (-1) 1 [sub1] (-1),
+                         .post false false 100 100 (-1) 2 [sub1] (-1), .wait 2 [2, -1] (some [777, 777]),
+                         .cancel 1 [1] none, .wait (-1) [] none] := by
+  simp only [Admissible, wellFormed, notRefused, step]
+  repeat' apply And.intro
+  all_goals (first | trivial | decide | (simp [sub1]; done))
+
+/-- refused waits are NOT harmless (F19): the statement "a wait that returns an error leaves the
+    queues as they were" is false of the code -/
+def refused_wait_harmless_Statement : Prop :=
+  ∀ nc : NC, Inv nc → ∀ num ids st, (ReqQueue.wait nc num ids st).err ≠ NC_NOERR → (ReqQueue.wait nc num ids st).nc = nc
+
+theorem refused_wait_harmless_counterexample : ¬ refused_wait_harmless_Statement := by
+  intro h
+  have hi : Inv (run {} (f19History.take 3)) :=
+    queue_inv_partial _ {} inv_init (by simp [f19History, Admissible, wellFormed, notRefused, sub1])
+  have := h _ hi 2 [0, 998] (some [777, 777]) (by decide)
+  revert this
+  decide
+
+/-! ### wait on an explicit id list -/
+
+/-- `wait_exact` / `status_by_id` / `ids_nulled` (partial: no shortcut of extract_reqs fires).
+    A successful wait on an explicit id list
+    * leaves exactly the requests NOT named pending, in the same order and unchanged (core fields
+      and the payload of every non-lead request),
+    * completes exactly the named ones, each once (`donePut`/`doneGet` = the named requests in
+      queue order), every completed lead carries NC_REQ_TO_FREE,
+    * sets every entry of req_ids[] to NC_REQ_NULL,
+    * when statuses[] is given, the status pointer of a completed request refers to a slot i with
+      req_ids[i] = its id,
+    * and the invariant holds again. -/
+theorem wait_exact_partial (nc : NC) (h : Inv nc) (num : Int) (ids : List Int) (st : Option (List Int))
+    (hsub : SubsetPath nc num st) (herr : (ReqQueue.wait nc num ids st).err = NC_NOERR) :
+    (ReqQueue.wait nc num ids st).nc.put.view = nc.put.view.filter (fun e => decide (e.c.id ∉ ids)) ∧
+    (ReqQueue.wait nc num ids st).nc.get.view = nc.get.view.filter (fun e => decide (e.c.id ∉ ids)) ∧
+    (ReqQueue.wait nc num ids st).donePut.map (fun l => l.c.id)
+        = (nc.put.view.filter (fun e => decide (e.c.id ∈ ids))).map (fun e => e.c.id) ∧
+    (ReqQueue.wait nc num ids st).doneGet.map (fun l => l.c.id)
+        = (nc.get.view.filter (fun e => decide (e.c.id ∈ ids))).map (fun e => e.c.id) ∧
+    (ReqQueue.wait nc num ids st).ids = ids.map (fun _ => NC_REQ_NULL) ∧
+    (∀ l ∈ (ReqQueue.wait nc num ids st).donePut ++ (ReqQueue.wait nc num ids st).doneGet, l.c.toFree = true ∧
+        (st.isSome = true → ∃ i, l.c.status = some i ∧ ids[i]? = some l.c.id)) ∧
+    Inv (ReqQueue.wait nc num ids st).nc := by
+  have hinv := wait_inv nc h num ids st herr
+  obtain ⟨vP, vG, hP, hG⟩ := h
+  have hw := wait_subset nc vP vG hP.rep hG.rep hP.clean hG.clean hP.distinct hG.distinct hP.noEmpty hG.noEmpty
+    (fun e he => ⟨(hP.ids e he).1, hP.ne_null e he⟩)
+    (fun e he => ⟨by have := (hG.ids e he).1; omega, hG.ne_null e he⟩)
+    num ids st hsub herr
+  rw [rep_view _ _ hP.rep, rep_view _ _ hG.rep, rep_view _ _ hw.1, rep_view _ _ hw.2.1]
+  exact ⟨rfl, rfl, hw.2.2.2.1, hw.2.2.2.2.1, hw.2.2.1, hw.2.2.2.2.2.1, hinv⟩
+
+/-- the full statement of `wait_exact`: for EVERY successful wait on an explicit list -/
+def wait_exact_Statement : Prop :=
+  ∀ nc : NC, Inv nc → ∀ (ids : List Int) (st : Option (List Int)),
+    (ReqQueue.wait nc ids.length ids st).err = NC_NOERR →
+    (ReqQueue.wait nc ids.length ids st).nc.put.view = nc.put.view.filter (fun e => decide (e.c.id ∉ ids))
+
+/-- F4b: two puts A (id 0), B (id 2) pending; wait_all(2,[A,NC_REQ_NULL]) completes B as well -/
+theorem wait_exact_counterexample : ¬ wait_exact_Statement := by
+  intro h
+  have hi : Inv (run {} (f19History.take 2)) :=
+    queue_inv_partial _ {} inv_init (by simp [f19History, Admissible, wellFormed, notRefused, sub1])
+  have := h _ hi [0, -1] (some [777, 777]) (by decide)
+  revert this
+  decide
+
+/-- the full statement of `status_by_id` -/
+def status_by_id_Statement : Prop :=
+  ∀ nc : NC, Inv nc → ∀ (ids : List Int) (st : List Int),
+    (ReqQueue.wait nc ids.length ids (some st)).err = NC_NOERR →
+    ∀ l ∈ (ReqQueue.wait nc ids.length ids (some st)).donePut ++ (ReqQueue.wait nc ids.length ids (some st)).doneGet,
+      ∃ i, l.c.status = some i ∧ ids[i]? = some l.c.id
+
+/-- F4a: two gets A (id 1), B (id 3) pending; wait_all(2,[B,A],st): A's status pointer is &st[0]
+    although req_ids[0] = B -/
+theorem status_by_id_counterexample : ¬ status_by_id_Statement := by
+  intro h
+  have hi : Inv (run {} [.post false false 100 100 (-1) 0 [sub1] (-1), .post false false 200 200 (-1) 1 [sub1] (-1)]) :=
+    queue_inv_partial _ {} inv_init (by simp [Admissible, wellFormed, notRefused, sub1])
+  have := h _ hi [3, 1] [777, 777] (by decide)
+    ⟨{ id := 1, varBegin := 100, toFree := true, abufIndex := -1, status := some 0, maxRec := -1, tag := 0 }, 0, 1⟩ (by decide)
+  obtain ⟨i, hi1, hi2⟩ := this
+  simp at hi1
+  subst hi1
+  simp at hi2
+
+/-- non-vacuity of `wait_exact_partial`: a subset wait naming the middle one of three puts while a
+    get is pending takes the subset path and succeeds -/
+example : SubsetPath (run {} [.post true true 100 100 (-1) 0 [sub1] (-1), .post true true 200 200 (-1) 1 [sub1] (-1),
+                              .post true true 300 300 (-1) 2 [sub1] (-1), .post false false 100 100 (-1) 3 [sub1] (-1)])
+                     1 (some [777]) ∧
+    (ReqQueue.wait (run {} [.post true true 100 100 (-1) 0 [sub1] (-1), .post true true 200 200 (-1) 1 [sub1] (-1),
+                              .post true true 300 300 (-1) 2 [sub1] (-1), .post false false 100 100 (-1) 3 [sub1] (-1)])
+                   1 [2] (some [777])).err = NC_NOERR := by
+  constructor
+  · unfold SubsetPath; decide
+  · decide
+
+/-- NC_REQ_ALL / NC_GET_REQ_ALL / NC_PUT_REQ_ALL complete every pending request of the kind -/
+theorem wait_all_spec (nc : NC) (h : Inv nc) (ids : List Int) (st : Option (List Int)) :
+    (ReqQueue.wait nc NC_REQ_ALL ids st).nc.put.view = [] ∧ (ReqQueue.wait nc NC_REQ_ALL ids st).nc.get.view = [] ∧
+    (ReqQueue.wait nc NC_PUT_REQ_ALL ids st).nc.put.view = [] ∧ (ReqQueue.wait nc NC_PUT_REQ_ALL ids st).nc.get = nc.get ∧
+    (ReqQueue.wait nc NC_GET_REQ_ALL ids st).nc.get.view = [] ∧ (ReqQueue.wait nc NC_GET_REQ_ALL ids st).nc.put = nc.put := by
+  obtain ⟨vP, vG, hP, hG⟩ := h
+  have hlP := lead_length_of_rep hP.rep
+  have hlG := lead_length_of_rep hG.rep
+  have eP : ∀ q : Q, q = (nc.put.takeAll.cleanup nc.put.numLead).1 → q.view = [] := by
+    intro q hq; rw [hq]; exact rep_view _ _ (cleanup_all nc.put nc.put.lead nc.put.numLead rfl hlP).1
+  have eG : ∀ q : Q, q = (nc.get.takeAll.cleanup nc.get.numLead).1 → q.view = [] := by
+    intro q hq; rw [hq]; exact rep_view _ _ (cleanup_all nc.get nc.get.lead nc.get.numLead rfl hlG).1
+  refine ⟨eP _ ?_, eG _ ?_, eP _ ?_, ?_, eG _ ?_, ?_⟩ <;>
+    simp [ReqQueue.wait, extract, NC_PUT_REQ_ALL, NC_REQ_ALL, NC_GET_REQ_ALL, NC_NOERR, cleanup_zero]
+
+/-! ### cancel -/
+
+/-- `cancel_spec`: ncmpi_cancel on an explicit id list removes exactly the named pending requests
+    (whatever else the list contains: NC_REQ_NULL, unknown or repeated ids), everything else stays
+    pending in the same order and unchanged; with one of the three constants the queue(s) are
+    emptied; the invariant is kept in every case. -/
+theorem cancel_spec (nc : NC) (h : Inv nc) (num : Int) (ids : List Int) (st : Option (List Int)) :
+    Inv (ReqQueue.cancel nc num ids st).nc ∧
+    (0 < num →
+      (ReqQueue.cancel nc num ids st).nc.put.view = nc.put.view.filter (fun e => decide (e.c.id ∉ ids)) ∧
+      (ReqQueue.cancel nc num ids st).nc.get.view = nc.get.view.filter (fun e => decide (e.c.id ∉ ids))) ∧
+    (num = NC_REQ_ALL → (ReqQueue.cancel nc num ids st).nc.put.view = [] ∧ (ReqQueue.cancel nc num ids st).nc.get.view = []) := by
+  refine ⟨cancel_inv nc h num ids st, ?_, ?_⟩
+  · intro hpos
+    obtain ⟨vP, vG, hP, hG⟩ := h
+    have h0 : ¬ num = 0 := by omega
+    have hlt : ¬ num < NC_PUT_REQ_ALL := by unfold NC_PUT_REQ_ALL; omega
+    have hneg : ¬ num < 0 := by omega
+    have hg : ¬ (num = NC_GET_REQ_ALL ∨ num = NC_REQ_ALL) := by unfold NC_GET_REQ_ALL NC_REQ_ALL; omega
+    have hp : ¬ (num = NC_PUT_REQ_ALL ∨ num = NC_REQ_ALL) := by unfold NC_PUT_REQ_ALL NC_REQ_ALL; omega
+    have hrep := cancelLoop_rep ids 0 { nc := nc, ids := [], st := st, err := NC_NOERR } vP vG hP.rep hG.rep
+    have hf := cancelView_filter ids vP vG hP.distinct hG.distinct
+      (fun e he => ⟨(hP.ids e he).1, hP.ne_null e he⟩) (fun e he => ⟨(hG.ids e he).1, hG.ne_null e he⟩)
+    rw [rep_view _ _ hP.rep, rep_view _ _ hG.rep]
+    unfold ReqQueue.cancel
+    simp only [h0, hlt, hneg, hg, hp, if_false]
+    rw [rep_view _ _ (freeIfEmpty_rep _ _ hrep.1), rep_view _ _ (freeIfEmpty_rep _ _ hrep.2.1), hf]
+    exact ⟨rfl, rfl⟩
+  · intro hall
+    subst hall
+    simp [ReqQueue.cancel, NC_REQ_ALL, NC_PUT_REQ_ALL, NC_GET_REQ_ALL, Q.clear, Q.view]
+
+/-! ### posting -/
+
+/-- `post_spec`: a post inserts the new request (fresh id of the right parity: 0/1 on an empty queue,
+    max…ReqID + 2 otherwise) at the position the begin-sorted insertion selects (or at the end for
+    iget_var*), leaves every other pending request unchanged and keeps the invariant. -/
+theorem post_spec (nc : NC) (h : Inv nc) (sorted : Bool) (varBegin reqOff abuf : Int) (tag : Nat)
+    (subs : List Sub) (maxRec : Int) (hsubs : subs ≠ []) :
+    let r := nc.put.post 0 sorted varBegin reqOff abuf tag subs maxRec
+    let p := postPos nc.put sorted reqOff
+    r.1.view = nc.put.view.take p ++ [⟨{ id := r.2, varBegin := varBegin, abufIndex := abuf, maxRec := maxRec, tag := tag }, subs⟩]
+                 ++ nc.put.view.drop p ∧
+    r.2 = (if nc.put.numLead = 0 then 0 else nc.put.maxId + 2) ∧
+    (∀ e ∈ nc.put.view, e.c.id ≠ r.2) ∧
+    (sorted = true → (∀ e ∈ nc.put.view.drop p, e.c.varBegin > reqOff) ∧
+                     (∀ e, (nc.put.view.take p).getLast? = some e → e.c.varBegin ≤ reqOff)) ∧
+    Inv (step nc (.post true sorted varBegin reqOff abuf tag subs maxRec)) := by
+  intro r p
+  have hstep := step_inv nc h (.post true sorted varBegin reqOff abuf tag subs maxRec) hsubs trivial
+  obtain ⟨vP, vG, hP, hG⟩ := h
+  have hq := post_inv nc.put 0 vP hP 0 (by decide) sorted varBegin reqOff abuf tag subs maxRec hsubs
+  have hv := rep_view _ _ hP.rep
+  have hr2 : r.2 = postId nc.put 0 := by simp only [r, post_eq]
+  refine ⟨?_, ?_, ?_, ?_, hstep⟩
+  · rw [rep_view _ _ hq.rep, hv, hr2]; rfl
+  · rw [hr2]; rfl
+  · intro e he
+    rw [hv] at he
+    have hd := hq.distinct
+    unfold Distinct at hd
+    have hperm := insert_perm vP (postPos nc.put sorted reqOff) (newEntry (postId nc.put 0) varBegin abuf maxRec tag subs)
+    have hd2 := (List.Perm.pairwise_iff (fun {a b} (hab : a.c.id ≠ b.c.id) => fun hba => hab hba.symm) hperm).mp hd
+    have := (List.pairwise_cons.mp hd2).1 e he
+    rw [hr2]; intro heq; exact this (by simp [newEntry, heq])
+  · intro hs
+    subst hs
+    have hsp := insPos_spec nc.put.lead reqOff
+    have hpp : p = insPos nc.put.lead reqOff := by simp [p, postPos]
+    rw [hv]
+    have hl := hP.rep.lead
+    constructor
+    · intro e he
+      -- the lead at the same position has the same core
+      have hcore : ∃ l ∈ nc.put.lead.drop p, l.c = e.c := by
+        rw [hl, canonLeads_drop]
+        have : ∀ (o : Nat) (w : List Entry), e ∈ w → ∃ l ∈ canonLeads o w, l.c = e.c := by
+          intro o w hw
+          induction w generalizing o with
+          | nil => simp at hw
+          | cons x xs ih =>
+            rcases List.mem_cons.mp hw with rfl | hx
+            · exact ⟨_, List.mem_cons_self, rfl⟩
+            · obtain ⟨l, hl1, hl2⟩ := ih _ hx
+              exact ⟨l, List.mem_cons_of_mem _ hl1, hl2⟩
+        exact this _ _ he
+      obtain ⟨l, hl1, hl2⟩ := hcore
+      rw [hpp] at hl1
+      have := hsp.1 l hl1
+      rw [hl2] at this; exact this
+    · intro e he
+      have hcore : ∃ l, (nc.put.lead.take p).getLast? = some l ∧ l.c = e.c := by
+        rw [hl, canonLeads_take]
+        have : ∀ (o : Nat) (w : List Entry), w.getLast? = some e → ∃ l, (canonLeads o w).getLast? = some l ∧ l.c = e.c := by
+          intro o w hw
+          induction w generalizing o with
+          | nil => simp at hw
+          | cons x xs ih =>
+            cases xs with
+            | nil => simp at hw; subst hw; exact ⟨⟨x.c, o, x.subs.length⟩, by simp [canonLeads], rfl⟩
+            | cons y ys =>
+              have hw' : (y :: ys).getLast? = some e := by simpa [List.getLast?_cons_cons] using hw
+              obtain ⟨l, hl1, hl2⟩ := ih (o + x.subs.length) hw'
+              refine ⟨l, ?_, hl2⟩
+              simp only [canonLeads] at hl1 ⊢
+              rw [List.getLast?_cons_cons]; exact hl1
+        exact this _ _ he
+      obtain ⟨l, hl1, hl2⟩ := hcore
+      rw [hpp] at hl1
+      have := hsp.2 l hl1
+      rw [hl2] at this; exact this
+
+/-! ### numrecs after a wait (F21) and the record split of varn (F20) -/
+
+/-- what the blocking calls do: after a wait in which this process completed puts, the record count
+    is the maximum of the old count and the `max_rec` of every completed put -/
+def numrecs_Statement : Prop :=
+  ∀ nc : NC, Inv nc → 0 ≤ nc.numrecs → ∀ num ids st, (ReqQueue.wait nc num ids st).err = NC_NOERR →
+    (ReqQueue.wait nc num ids st).nc.numrecs = maxRecOf nc.numrecs (ReqQueue.wait nc num ids st).donePut
+
+/-- F21: put to a fixed variable (queued first), put to record 3 (max_rec 4), a pending get;
+    wait_all(1,[id of the record put]) leaves numrecs = 3 -/
+theorem numrecs_counterexample : ¬ numrecs_Statement := by
+  intro h
+  have hi : Inv (run { numrecs := 3 } [.post true true 100 100 (-1) 0 [sub1] (-1), .post true true 200 968 (-1) 1 [sub1] 4,
+                                       .post false false 100 100 (-1) 2 [sub1] (-1)]) :=
+    queue_inv_partial _ _ ⟨[], [], QInv.empty _ _ ⟨rfl, rfl, rfl, rfl⟩, QInv.empty _ _ ⟨rfl, rfl, rfl, rfl⟩⟩
+      (by simp [Admissible, wellFormed, notRefused, sub1])
+  have := h _ hi (by decide) 1 [2] (some [777]) (by decide)
+  revert this
+  decide
+
+/-- `numrecs_partial`: for NC_REQ_ALL and NC_PUT_REQ_ALL (every put lead is extracted, so the loop
+    bound `num_w_lead_reqs` covers the whole queue) the record count is right -/
+theorem numrecs_partial (nc : NC) (h : Inv nc) (h0 : 0 ≤ nc.numrecs) (num : Int) (ids : List Int) (st : Option (List Int))
+    (hnum : num = NC_REQ_ALL ∨ num = NC_PUT_REQ_ALL) :
+    (ReqQueue.wait nc num ids st).nc.numrecs = maxRecOf nc.numrecs (ReqQueue.wait nc num ids st).donePut := by
+  obtain ⟨vP, vG, hP, hG⟩ := h
+  have hlP := lead_length_of_rep hP.rep
+  have hfl := flagAll_flagged nc.put.lead
+  have hnn := newNumrecs_allflagged (flagAll nc.put.lead) hfl nc.numrecs h0
+  have htake : (flagAll nc.put.lead).take nc.put.numLead = flagAll nc.put.lead := by
+    apply List.take_of_length_le; simp [flagAll, hlP]
+  have hdone : (nc.put.takeAll.cleanup nc.put.numLead).2 = if nc.put.numLead = 0 then [] else flagAll nc.put.lead := by
+    unfold Q.cleanup Q.takeAll
+    split
+    · rfl
+    · simp only [cleanupGo_allflagged (flagAll nc.put.lead) hfl]
+  have hempty : nc.put.numLead = 0 → flagAll nc.put.lead = [] := by
+    intro hz; have : nc.put.lead = [] := List.eq_nil_of_length_eq_zero (by omega)
+    rw [this]; rfl
+  have hW0 : nc.put.numReqs = 0 → flagAll nc.put.lead = [] := by
+    intro hz
+    have : total vP = 0 := by rw [← hP.rep.numReqs]; exact hz
+    have hv : vP = [] := by
+      cases hvv : vP with
+      | nil => rfl
+      | cons e es =>
+        have hne := hP.noEmpty e (by rw [hvv]; exact List.mem_cons_self)
+        rw [hvv] at this; simp at this; exact absurd this.1 hne
+    rw [hP.rep.lead, hv]; rfl
+  have key : ∀ n, n = NC_REQ_ALL ∨ n = NC_PUT_REQ_ALL →
+      (ReqQueue.wait nc n ids st).nc.numrecs =
+        (if nc.put.numReqs > 0 ∧ nc.numrecs < newNumrecs nc.numrecs nc.put.numLead (flagAll nc.put.lead)
+         then newNumrecs nc.numrecs nc.put.numLead (flagAll nc.put.lead) else nc.numrecs) ∧
+      (ReqQueue.wait nc n ids st).donePut = (nc.put.takeAll.cleanup nc.put.numLead).2 := by
+    intro n hn
+    rcases hn with rfl | rfl <;>
+      simp [ReqQueue.wait, extract, NC_PUT_REQ_ALL, NC_REQ_ALL, NC_GET_REQ_ALL, NC_NOERR, Q.takeAll]
+  obtain ⟨k1, k2⟩ := key num hnum
+  rw [k1, k2, hdone]
+  unfold newNumrecs
+  rw [htake, hnn.1]
+  by_cases hz : nc.put.numLead = 0
+  · simp only [hz, if_true]
+    rw [hempty hz]; simp [maxRecOf]
+  · simp only [hz, if_false]
+    by_cases hw : nc.put.numReqs > 0
+    · have := hnn.2
+      split
+      · rfl
+      · rename_i hc; have : ¬ nc.numrecs < maxRecOf nc.numrecs (flagAll nc.put.lead) := fun hh => hc ⟨hw, hh⟩
+        omega
+    · have : nc.put.numReqs = 0 := by omega
+      rw [hW0 this]; simp [maxRecOf]
+
+/-- what a correct per-record split of a sub-request looks like -/
+def record_split_Statement : Prop :=
+  ∀ (tag : Nat) (nelems xoff xsz : Int) (k : Nat), 0 < k → (k : Int) ∣ nelems →
+    splitVarn tag nelems xoff xsz k = exactSplit tag nelems xoff xsz k
+
+/-- F20: igetput_varn hands the UNDIVIDED element count to ncmpio_add_record_requests: a
+    sub-request of 16 elements over 2 records becomes two requests of 16 elements, 128 bytes apart -/
+theorem record_split_counterexample : ¬ record_split_Statement := by
+  intro h
+  have := h 0 16 0 8 2 (by decide) (by decide)
+  revert this
+  decide
+
+/-- the varm path (`req->nelems /= count[0]` is there) splits exactly, for every record count, and
+    the varn path is right when the sub-request stays inside one record -/
+theorem record_split_partial (tag : Nat) (nelems xoff xsz : Int) (k : Nat) :
+    (1 < k → splitVarm tag nelems xsz k = exactSplit tag nelems 0 xsz k) ∧
+    (k = 1 → splitVarn tag nelems xoff xsz k = exactSplit tag nelems xoff xsz k) := by
+  constructor
+  · intro hk
+    unfold splitVarm exactSplit addRecordRequests
+    simp [hk]
+  · intro hk
+    subst hk
+    simp [splitVarn, exactSplit]
+
 def obligations : List String := [
   "merge_spec", "sort_spec", "coalesce_preserves_map", "merge_disjoint_identity", "aggregate_disjoint",
-  "read_fills_all_counterexample", "read_fills_all_partial"
+  "read_fills_all_counterexample", "read_fills_all_partial",
+  "queue_inv_meaning", "inv_init", "queue_inv_partial", "queue_inv_counterexample",
+  "refused_wait_harmless_counterexample",
+  "wait_exact_partial", "wait_exact_counterexample", "status_by_id_counterexample", "wait_all_spec",
+  "cancel_spec", "post_spec",
+  "numrecs_counterexample", "numrecs_partial", "record_split_counterexample", "record_split_partial"
 ]
 end PnVerif.Props.C02
